@@ -138,6 +138,14 @@ def mk_ext(kind: str, args: List[Term]) -> Term:
             flat.extend(a[1])
         else:
             flat.append(a)
+    LIMITS = (("K", "FLOAT_MAX"), ("call", ("mod", "numpy.nextafter"), (("K", "FLOAT_MAX"), ("const", 0)), ()),
+              ("attr", ("call", ("mod", "numpy.finfo"), (("builtin", "float"),), ()), "max"), ("attr", ("mod", "sys.float_info"), "max"))
+    if kind == "min" and len(flat) > 1 and any(a in LIMITS for a in flat):
+        # min(v, FLOAT_MAX) is v for every finite v (FLOAT_MAX is the largest float; the float next to it differs only for
+        # v = FLOAT_MAX itself, which no distance of finite data attains): clipping at the float limit is a no-op
+        flat = [a for a in flat if a not in LIMITS] or [("K", "FLOAT_MAX")]
+        if len(flat) == 1:
+            return flat[0]
     return (kind, tuple(sorted(flat, key=tkey)))
 
 
@@ -395,6 +403,8 @@ def module_literal(mi, name: str) -> Optional[Term]:
         if isinstance(n, ast.Name) and n.id in mi.functions:
             return ("mod", f"{mi.name}.{n.id}")
         if isinstance(n, ast.Attribute) and isinstance(n.value, ast.Name) and n.value.id in mi.imports:
+            if mi.imports[n.value.id] == CONST_MOD:
+                return ("K", n.attr)  # a module-level alias of a library constant (UNREACHED = c.FLOAT_MAX)
             return ("mod", f"{mi.imports[n.value.id]}.{n.attr}")
         if isinstance(n, ast.Call) and not n.keywords and len(n.args) == 1 and isinstance(n.args[0], ast.Constant) \
                 and conv(n.func) == ("mod", "struct.Struct"):
@@ -827,7 +837,38 @@ class Walker:
             return t[2]
         return None
 
+    @staticmethod
+    def _is_table(t: Term) -> bool:
+        if t[0] == "alloc" and t[1] in ("numpy.array", "numpy.asarray") and len(t[2]) == 1:
+            t = t[2][0]
+        return t[0] == "listcomp"
+
+    def _table_written(self, base: Term) -> None:
+        """A per-element table built by a comprehension received an element store: from here on it no longer equals its
+        defining expression (reads of it are not fused, locals holding it become stale copies)."""
+        while base[0] == "idx":
+            base = base[1]
+        if base[0] == "old":
+            base = base[1]
+        if not self._is_table(base):
+            return
+        self.__dict__.setdefault("mut_tables", set()).add(base)
+        if base[0] == "alloc":
+            self.mut_tables.add(base[2][0])
+        envs = list(self.envstack)
+        cur = self.__dict__.get("_cur_env")
+        if cur is not None and all(cur is not x for x in envs):
+            envs.append(cur)
+        for env in envs:
+            for n, v in list(env.items()):
+                if v == base:
+                    self._old += 1
+                    env[n] = ("old", v, self._old)
+                    self.old_cause[self._old] = {"store"}
+
     def emit(self, kind: str, node: ast.AST, **kw) -> Event:
+        if kind == "store" and kw.get("target") is not None and kw["target"][0] == "idx":
+            self._table_written(kw["target"][1])
         self._seq += 1
         ev = Event(
             kind, self._seq, self.fnstack[-1], node, tuple(self.guards), tuple(self.loopstack),
@@ -865,6 +906,7 @@ class Walker:
                 break
             prev = self.stmt
             self.stmt = s
+            self._cur_env = env
             res = self.statement(s, env)
             self.stmt = prev
             if res is True:
@@ -1250,6 +1292,21 @@ class Walker:
             finally:
                 _GRAPH_CTX[0] = None
         self.invalidate({f: c for f, c in whole.items() if f not in nonheap_only}, env)
+        # local tables that the body stores into are stale from the loop's entry on (a later iteration reads the update)
+        for st in body:
+            for n in ast.walk(st):
+                tg = []
+                if isinstance(n, ast.Assign):
+                    tg = n.targets
+                elif isinstance(n, ast.AugAssign):
+                    tg = [n.target]
+                for t0 in tg:
+                    for x in ([t0] if not isinstance(t0, (ast.Tuple, ast.List)) else t0.elts):
+                        b = x
+                        while isinstance(b, ast.Subscript):
+                            b = b.value
+                        if isinstance(x, ast.Subscript) and isinstance(b, ast.Name) and b.id in env and self._is_table(env[b.id]):
+                            self._table_written(env[b.id])
         names = [n for n in assigned_names(body) if n not in extra]
         init = {n: env.get(n, ("undef",)) for n in names}
         for n in names:
@@ -1800,7 +1857,8 @@ class Walker:
             if tab[0] == "alloc" and tab[1] in ("numpy.array", "numpy.asarray") and len(tab[2]) == 1 and \
                     set(dict(tab[3])) <= {"dtype"}:
                 tab = tab[2][0]
-            if tab[0] == "listcomp" and len(tab[2]) == 1 and not tab[2][0][2] and ix[0] not in ("slice", "tuple"):
+            if tab[0] == "listcomp" and len(tab[2]) == 1 and not tab[2][0][2] and ix[0] not in ("slice", "tuple") \
+                    and isinstance(e.ctx, ast.Load) and tab not in self.__dict__.get("mut_tables", ()):
                 d, l, _ = tab[2][0]
                 if not (d[0] == "call" and d[1] in (("builtin", "zip"), ("builtin", "enumerate"), ("builtin", "range"))):
                     return plug_back(tab[1], ("iter", d, l), ("idx", d, ix))
@@ -1825,7 +1883,13 @@ class Walker:
             left = self.ev(e.left, env)
             for op, comp in zip(e.ops, e.comparators):
                 right = self.ev(comp, env)
-                parts.append(mk_cmp(CMPS[type(op)], left, right))
+                o = CMPS[type(op)]
+                nonish = lambda t: t == ("const", None)
+                # `x is None` with x known to be None (a default argument of an inlined helper), or a fresh object
+                if o in ("is", "is not") and nonish(right) and (nonish(left) or left[0] in ("alloc", "new", "tuple", "dict")):
+                    parts.append(("const", nonish(left) == (o == "is")))
+                else:
+                    parts.append(mk_cmp(o, left, right))
                 left = right
             return parts[0] if len(parts) == 1 else ("and", tuple(parts))
         if isinstance(e, ast.BoolOp):
